@@ -4,28 +4,27 @@
      ok <ints>            | fail <kind> <ints>     | bad <msg>
    This file only parses integers/parentheses and prints; every decision is
    taken by extracted Gallina code (Gsext). *)
-open Gsext
 
 let rec pos_of_int n =
-  if n = 1 then XH
-  else if n land 1 = 0 then XO (pos_of_int (n lsr 1))
-  else XI (pos_of_int (n lsr 1))
+  if n = 1 then Gsext.XH
+  else if n land 1 = 0 then Gsext.XO (pos_of_int (n lsr 1))
+  else Gsext.XI (pos_of_int (n lsr 1))
 
-let z_of_int n = if n = 0 then Z0 else if n > 0 then Zpos (pos_of_int n) else Zneg (pos_of_int (-n))
+let z_of_int n = if n = 0 then Gsext.Z0 else if n > 0 then Gsext.Zpos (pos_of_int n) else Gsext.Zneg (pos_of_int (-n))
 
-let rec int_of_pos = function XH -> 1 | XO p -> 2 * int_of_pos p | XI p -> 2 * int_of_pos p + 1
-let int_of_z = function Z0 -> 0 | Zpos p -> int_of_pos p | Zneg p -> - (int_of_pos p)
+let rec int_of_pos = function Gsext.XH -> 1 | Gsext.XO p -> 2 * int_of_pos p | Gsext.XI p -> 2 * int_of_pos p + 1
+let int_of_z = function Gsext.Z0 -> 0 | Gsext.Zpos p -> int_of_pos p | Gsext.Zneg p -> - (int_of_pos p)
 
 let string_of_chars l = String.concat "" (List.map (String.make 1) l)
 
 exception Parse_error of string
 
 (* parse a line into an sx *)
-let parse_sx (s : string) : sx =
+let parse_sx (s : string) : Gsext.sx =
   let n = String.length s in
   let pos = ref 0 in
   let rec skip () = if !pos < n && (s.[!pos] = ' ' || s.[!pos] = '\t' || s.[!pos] = '\r') then (incr pos; skip ()) in
-  let rec item () : sx =
+  let rec item () : Gsext.sx =
     skip ();
     if !pos >= n then raise (Parse_error "eof");
     if s.[!pos] = '(' then begin
@@ -38,13 +37,13 @@ let parse_sx (s : string) : sx =
         if s.[!pos] = ')' then (incr pos; fin := true)
         else items := item () :: !items
       done;
-      L (List.rev !items)
+      Gsext.L (List.rev !items)
     end else begin
       let st = !pos in
       if s.[!pos] = '-' then incr pos;
       while !pos < n && s.[!pos] >= '0' && s.[!pos] <= '9' do incr pos done;
       if !pos = st then raise (Parse_error (Printf.sprintf "char %c at %d" s.[!pos] !pos));
-      I (z_of_int (int_of_string (String.sub s st (!pos - st))))
+      Gsext.I (z_of_int (int_of_string (String.sub s st (!pos - st))))
     end
   in
   let r = item () in
@@ -54,29 +53,33 @@ let parse_sx (s : string) : sx =
 
 let ints l = String.concat " " (List.map (fun z -> string_of_int (int_of_z z)) l)
 
-let print_verdict = function
-  | Ok info -> Printf.printf "ok %s\n" (ints info)
-  | Fail (k, info) -> Printf.printf "fail %s %s\n" (string_of_chars k) (ints info)
-  | Bad m -> Printf.printf "bad %s\n" (string_of_chars m)
+let print_verdict v =
+  let (tag, (text, info)) = Gsext.verdict_parts v in
+  match int_of_z tag with
+  | 0 -> Printf.printf "ok %s\n" (ints info)
+  | 1 -> Printf.printf "fail %s %s\n" (string_of_chars text) (ints info)
+  | _ -> Printf.printf "bad %s\n" (string_of_chars text)
 
-let judges : (string * (sx -> verdict)) list = [
-  "C05", judge_C05;
-  "solve", judge_solve_case;
-  "C03", judge_C03;
-  "C04", judge_C04;
-  "C09", judge_C09;
-  "C10", judge_C10;
-  "C06", judge_C06;
-  "C07", judge_C07;
-  "C08", judge_C08;
-  "C08s", judge_C08s;
-  "C11", judge_C11;
-  "C12", judge_C12;
-  "C14", judge_C14;
-  "C20o", judge_C20o;
-  "C20m", judge_C20m;
-  "C20e", judge_C20e;
-  "C15", judge_C15;
+let judges : (string * (Gsext.sx -> Gsext.verdict)) list = [
+  "C05", Gsext.judge_C05;
+  "solve", Gsext.judge_solve_case;
+  "C03", Gsext.judge_C03;
+  "C04", Gsext.judge_C04;
+  "C09", Gsext.judge_C09;
+  "C10", Gsext.judge_C10;
+  "C06", Gsext.judge_C06;
+  "C07", Gsext.judge_C07;
+  "C08", Gsext.judge_C08;
+  "C08s", Gsext.judge_C08s;
+  "C11", Gsext.judge_C11;
+  "C12", Gsext.judge_C12;
+  "C14", Gsext.judge_C14;
+  "C17", Gsext.judge_C17;
+  "render17", Gsext.render17;
+  "C20o", Gsext.judge_C20o;
+  "C20m", Gsext.judge_C20m;
+  "C20e", Gsext.judge_C20e;
+  "C15", Gsext.judge_C15;
 ]
 
 let () =
